@@ -224,6 +224,13 @@ func init() {
 	rtOnly := func(prop, scenario string, q, t int, floors map[string]int, rule string, nontrivialKey string) {
 		registry[prop] = func(run *harness.Run) int {
 			fs, ev, inc := rtPart(run, scenario, q, t, floors)
+			if prop == "C14" {
+				for i := range fs { // a panic while the worker handles a sync leaves the node without a term
+					if fs[i].Prop == "C12" && fs[i].Rule == "panic-reached-the-supervising-loop" {
+						fs = append(fs, harness.Finding{Prop: "C14", Rule: "worker-panicked-while-handling-a-sync", Detail: fs[i].Detail, Replay: fs[i].Replay})
+					}
+				}
+			}
 			if prop == "C14" { // "UpdateState itself never blocks indefinitely while the loops run": also under a message flood
 				f2, e2, i2 := rtPart(run, "flood", 4, 60, map[string]int{"C12 floods judged": 4})
 				for i := range f2 {
